@@ -32,7 +32,7 @@ NPARTS = 16
 
 def plan(tier, seed):
     specs = [{"kind": "exhaustive", "part": p, "parts": NPARTS} for p in range(NPARTS)]
-    n = 20000 if tier == "quick" else 400000
+    n = 40000 if tier == "quick" else 1600000
     per = n // NPARTS
     specs += [{"kind": "random", "start": p * per, "count": per} for p in range(NPARTS)]
     specs.append({"kind": "suite"})
